@@ -490,7 +490,23 @@ class SimCtl:
         prev_off = c.off
         c.off = c.base_off + (0, 2, -1, 5)[self.n_init % 4]
         repl = SingleReplication(f"rep{self.n_init}", c.at(0), c.t(self.warm_t), c.t(self.end_t))
-        e = self._call("Initialize", lambda: self.sim.initialize(self.model, repl), {"a": "Initialize", "ops": self.init_ops or []})
+        # the warm-up event is the one initialize() schedules on the simulator itself: caught at the public scheduling method
+        captured, sim = [], self.sim
+        orig = sim.schedule_event_abs
+
+        def _capture(*a, **k):
+            ev_ = orig(*a, **k)
+            if len(a) >= 2 and a[1] is sim:
+                captured.append(ev_)
+            return ev_
+        sim.schedule_event_abs = _capture
+        try:
+            e = self._call("Initialize", lambda: self.sim.initialize(self.model, repl), {"a": "Initialize", "ops": self.init_ops or []})
+        finally:
+            try:
+                del sim.schedule_event_abs
+            except AttributeError:
+                pass
         if e["res"] == "ok":
             self.n_init += 1
         else:
@@ -500,13 +516,8 @@ class SimCtl:
         if e["res"] == "ok":
             self.warm_rank = self.next_rank + 1
             self.next_rank += 1
-            # locate the warm-up event object for cancel-by-rank
-            try:
-                for tup in self.sim.eventlist()._event_list:
-                    if tup[3].target is self.sim:
-                        self.events[self.warm_rank] = tup[3]
-            except Exception:
-                pass
+            if captured:
+                self.events[self.warm_rank] = captured[-1]
             self.subscribe()
         e["old_worker_dead"] = 1 if (old is None or not old.is_alive() or (old.join(1.0) or not old.is_alive())) else 0
         return e
@@ -572,14 +583,12 @@ class SimCtl:
         return e
 
     def pending_ranks(self):
+        # public API only: an event handed out by the scheduling methods is pending iff the event list contains it
         try:
-            out = []
-            for tup in self.sim.eventlist()._event_list:
-                evn = tup[3]
-                if evn.target is self.sim:
-                    out.append(self.warm_rank)
-                else:
-                    out.append(evn.kwargs["k"])
+            el = self.sim.eventlist()
+            out = [r for r, evn in self.events.items() if el.contains(evn)]
+            if el.size() != len(out):
+                return sorted(out), 0           # (events we do not know about: do not judge the pending set)
             return sorted(out), 1
         except Exception:
             return [], 0
